@@ -915,6 +915,43 @@ type c15RigOpts struct {
 	Try             []string
 	Log             *logr.Logger
 	PlayerName      string
+	// ClientSecret (16 bytes): the client connection is encrypted (AES/CFB8) from
+	// the first byte after the login start, as on an online-mode connection. The
+	// rig enables it on the proxy side from a PreLogin handler, i.e. on the read
+	// loop's goroutine between two packets, which is where the EncryptionResponse
+	// handler does it in production.
+	ClientSecret []byte
+}
+
+// c15CipherConn is the fake client's end of an encrypted connection: the first
+// plain bytes it writes (handshake + login start) pass unchanged, everything
+// after them is AES/CFB8-encrypted; everything it reads is decrypted.
+type c15CipherConn struct {
+	net.Conn
+	plain    int
+	enc, dec *verifkit.RefCFB8
+}
+
+func (c *c15CipherConn) Read(p []byte) (int, error) {
+	n, err := c.Conn.Read(p)
+	if n > 0 {
+		c.dec.XOR(p[:n], p[:n])
+	}
+	return n, err
+}
+
+func (c *c15CipherConn) Write(p []byte) (int, error) {
+	out := append([]byte(nil), p...)
+	k := 0
+	if c.plain > 0 {
+		k = c.plain
+		if k > len(out) {
+			k = len(out)
+		}
+		c.plain -= k
+	}
+	c.enc.XOR(out[k:], out[k:])
+	return c.Conn.Write(out)
 }
 
 type c15Rig struct {
@@ -1098,6 +1135,18 @@ func c15NewRig(o c15RigOpts) (*c15Rig, error) {
 	event.Subscribe(r.ev, 0, func(e *PostLoginEvent) {
 		r.logEvent(c15Event{Kind: "postlogin"})
 	})
+	if len(o.ClientSecret) == 16 {
+		event.Subscribe(r.ev, 0, func(e *PreLoginEvent) {
+			li, ok := e.Conn().(*loginInboundConn)
+			if !ok {
+				r.harnessErr("PreLoginEvent.Conn() is %T, cannot enable encryption", e.Conn())
+				return
+			}
+			if err := li.delegate.MinecraftConn.EnableEncryption(o.ClientSecret); err != nil {
+				r.harnessErr("EnableEncryption: %v", err)
+			}
+		})
+	}
 	return r, nil
 }
 
@@ -1112,6 +1161,14 @@ func (r *c15Rig) start() {
 			level: r.opts.ClientLevel, chunk: r.opts.ClientChunk, coalesce: r.opts.ClientCoalesce},
 		name: r.opts.PlayerName, ids: r.ids,
 	}
+	hs := c15Enc(&packet.Handshake{ProtocolVersion: int(r.proto), ServerAddress: "verif.example", Port: 25565, NextStatus: 2},
+		proto.ServerBound, state.Handshake, r.proto)
+	ls := c15Enc(&packet.ServerLogin{Username: c.name, HolderID: uuid.OfflinePlayerUUID(c.name)},
+		proto.ServerBound, state.Login, r.proto)
+	if len(r.opts.ClientSecret) == 16 {
+		c.conn = &c15CipherConn{Conn: f, plain: len(verifkit.RefFrame(hs, -1, 0)) + len(verifkit.RefFrame(ls, -1, 0)),
+			enc: verifkit.NewRefCFB8(r.opts.ClientSecret, false), dec: verifkit.NewRefCFB8(r.opts.ClientSecret, true)}
+	}
 	c.onPayload = c.handle
 	r.client = c
 	r.wg.Add(1)
@@ -1124,10 +1181,8 @@ func (r *c15Rig) start() {
 		r.mu.Unlock()
 	}()
 	c.start()
-	c.send(c15Enc(&packet.Handshake{ProtocolVersion: int(r.proto), ServerAddress: "verif.example", Port: 25565, NextStatus: 2},
-		proto.ServerBound, state.Handshake, r.proto))
-	c.send(c15Enc(&packet.ServerLogin{Username: c.name, HolderID: uuid.OfflinePlayerUUID(c.name)},
-		proto.ServerBound, state.Login, r.proto))
+	c.send(hs)
+	c.send(ls)
 }
 
 func (r *c15Rig) player() *connectedPlayer { return r.proxy.playerByName(r.opts.PlayerName) }
